@@ -439,6 +439,17 @@ pub fn rename_leaves_concat(rng: &mut Rng, t: &mut Rose) {
     t.for_each_mut(&mut |r, _, _| if r.kids.is_empty() { r.name = names.pop(); }, true, 0);
 }
 
+/// labels are data: on about one tree in five, some names get characters that are syntax elsewhere (markup, format strings,
+/// shell) and some are wrapped in double quotes (the quotes are part of the name, possibly with a blank inside)
+pub fn odd_labels(rng: &mut Rng, t: &mut Rose) -> bool {
+    if !rng.chance(1, 5) {
+        return false;
+    }
+    spice_names(rng, t, 25);
+    t.for_each_mut(&mut |x, _, _| if let Some(n) = x.name.as_mut() { if !n.contains('"') { match rng.below(8) { 0 => *n = format!("\"{n}\""), 1 => *n = format!("\"{n} x\""), _ => {} } } }, true, 0);
+    true
+}
+
 /// Build through the public API in pre-order: ids equal pre-order positions.
 pub fn build_api(t: &Rose) -> Tree {
     fn node_of(r: &Rose) -> Node {
